@@ -45,18 +45,24 @@ theorem arange_den (start step : Int) (hs : step ≠ 0) (cs : List Nat) :
 
 example : arangeValues 10 (-3) [3, 1] = [[10, 7, 4], [1]] := by rfl
 
-/-- **linspace_den**: value `j` of the block that starts at element `off` — a fraction with
-    denominator `div * ldiv` — equals the global value `(a + (off+j)*range)/div`, for every chunking;
-    `a = start*div`, `range = stop - start`. -/
-theorem linspace_den (range a : Int) (ep : Bool) (cs : List Nat) :
-    (linspaceBlocks range ep a cs).flatMap (fun b => (List.range b.len).map (fun j => npLinspaceNum ep b j))
-      = linspaceExpected range a ep 0 cs
-    ∧ (linspaceBlocks range ep a cs).map (·.len) = cs := by
-  refine ⟨?_, linspace_lens range ep cs a⟩
-  have := linspace_aux range a ep cs 0
-  simpa using this
+/-- **linspace_den**: for every chunking the blocks have the declared lengths and concatenate to NumPy's
+    `arange(num) * step + start` with the last element pinned to `stop` — every element is a function of its
+    *global* index only (numerators over `div`; `a = start*div`, `b = stop*div`, `range = stop - start`). -/
+theorem linspace_den (a b range : Int) (num : Nat) (ep : Bool) (cs : List Nat) (hsum : sum cs = num) :
+    (linspaceValues a b range num ep cs).flatten = linspaceSpec a b range num ep
+    ∧ (linspaceValues a b range num ep cs).map List.length = cs := by
+  refine ⟨?_, linspace_lens a b range num ep cs 0⟩
+  unfold linspaceValues linspaceSpec
+  rw [linspace_aux a b range num ep cs 0, hsum]
+  rfl
 
-example : (linspaceBlocks 10 true 0 [2, 3]).map (fun b => (b.start, b.stop, b.len)) = [(0, 10, 2), (20, 40, 3)] := by rfl
+/-- the pinned endpoint is the value the formula gives in exact arithmetic: `start + (num-1)*step = stop` -/
+theorem linspace_endpoint (start stop : Int) (num : Nat) :
+    start * ((num - 1 : Nat) : Int) + ((num - 1 : Nat) : Int) * (stop - start) = stop * ((num - 1 : Nat) : Int) := by
+  generalize ((num - 1 : Nat) : Int) = d
+  rw [Int.mul_sub, Int.mul_comm start d, Int.mul_comm stop d]; omega
+
+example : linspaceValues 0 40 10 5 true [2, 3] = [[0, 10], [20, 30, 40]] := by decide
 
 /-- **eye_den**: for every chunking of rows and columns and every `k`, element `(r, c)` of the
     assembled blocks is `1` iff `c - r = k` (NumPy's `eye(N, M, k)`), including the blocks built with `np.zeros`. -/
